@@ -7,6 +7,7 @@ import (
 	"encoding/base64"
 	"encoding/json"
 	"fmt"
+	"io"
 	"os"
 	"path/filepath"
 	"sync/atomic"
@@ -59,6 +60,31 @@ func c05Check(f genFile) (kind, msg, loader string, confirmed bool, harnessErr s
 		}
 	}
 	return "", "ok", "", confirmed, ""
+}
+
+// hookReader delivers data[:cut], then calls hook once, then delivers the rest.
+type hookReader struct {
+	data []byte
+	cut  int
+	pos  int
+	hook func()
+}
+
+func (h *hookReader) Read(p []byte) (int, error) {
+	if h.pos >= len(h.data) {
+		return 0, io.EOF
+	}
+	end := len(h.data)
+	if h.pos < h.cut {
+		end = h.cut
+	} else if h.hook != nil {
+		f := h.hook
+		h.hook = nil
+		f()
+	}
+	n := copy(p, h.data[h.pos:end])
+	h.pos += n
+	return n, nil
 }
 
 func c05PNG(name string, w, h uint32, ct, depth, il uint8, rng *core.RNG, anc int) genFile {
@@ -233,6 +259,49 @@ func runC05(r *core.Run) {
 				one(g)
 			}
 		})
+	}
+	// interleaved loads: the source of one load, at a chosen offset, performs a complete load of
+	// another file before it delivers the rest (what two goroutines, or a streaming source, do to
+	// each other - here at every offset of the first 72 bytes, deterministically). State shared
+	// between loads (a package-level scratch buffer) shows as the other file's values.
+	{
+		rg := core.NewRNG(r.Seed, "C05", "interleaved")
+		mk := func(i int) []genFile {
+			return []genFile{
+				c05WebP("interleaved", "VP8", uint32(100+i*37), uint32(900-i*41), rg, 0),
+				c05WebP("interleaved", "VP8L", uint32(300+i*11), uint32(70+i*13), rg, 0),
+				c05WebP("interleaved", "VP8X", uint32(5000+i), uint32(6000-i), rg, uint8(i)),
+				c05PNG("interleaved", uint32(640+i), uint32(480-i), 2, 8, 0, rg, 1),
+				c05JPEG("interleaved", 800+i, 600-i, i%2 == 0, 3, jpegSamplings[0], rg, 1),
+			}
+		}
+		as, bs := mk(1), mk(2)
+		var n int64
+		for ai, a := range as {
+			for bi, b := range bs {
+				if bi != ai && bi != (ai+1)%len(bs) {
+					continue
+				}
+				for cut := 1; cut <= 72 && cut < len(a.Bytes); cut++ {
+					for _, loader := range []string{loaderFor(a.Truth.Format), "autometa"} {
+						hr := &hookReader{data: a.Bytes, cut: cut, hook: func() {
+							_ = loadWith(loaderFor(b.Truth.Format), bytes.NewReader(b.Bytes))
+							_ = loadWith("autometa", bytes.NewReader(b.Bytes))
+						}}
+						res := loadWith(loader, hr)
+						n++
+						md := res.MD
+						if res.Panic != nil || res.Err != nil || md == nil || md.PixelWidth != a.Truth.W || md.PixelHeight != a.Truth.H || md.BitsPerComponent != a.Truth.Depth || string(md.Format) != a.Truth.Format {
+							r.Violate("file", a.Truth.Format+"/"+loader+"/interleaved", fmt.Sprintf("%s.Load of %s (%dx%d) whose source, after delivering %d bytes, loaded %s (%dx%d) before delivering the rest: got %s", loader, a.Name, a.Truth.W, a.Truth.H, cut, b.Name, b.Truth.W, b.Truth.H, sumStr(summarise(res))),
+								map[string]any{"a": base64.StdEncoding.EncodeToString(a.Bytes), "b": base64.StdEncoding.EncodeToString(b.Bytes), "cut": cut, "loader": loader})
+							break
+						}
+					}
+				}
+			}
+		}
+		total.Add(n)
+		r.Obs("interleaved_load_cases", n)
 	}
 	// JPEG with zero lines in the frame header (legal with a DNL segment, ITU T.81 B.2.5)
 	for _, w := range []int{1, 640, 65535} {
